@@ -135,7 +135,13 @@ func vState(a *Allocator, nNodes int) string {
 		if r.strict {
 			s = 1
 		}
-		reqs = append(reqs, fmt.Sprintf("%s:%d:%d:%d:%d:%d", id, uint64(r.zone), int(r.types), r.limit, int(r.priority), s))
+		// the assignment is what the public API reports (AssignedZone reads a.users); a request object that
+		// disagrees with it is flagged below, and the property predicates are judged on the public view
+		pub := r.zone
+		if z, ok := a.AssignedZone(id); ok {
+			pub = z
+		}
+		reqs = append(reqs, fmt.Sprintf("%s:%d:%d:%d:%d:%d", id, uint64(pub), int(r.types), r.limit, int(r.priority), s))
 		if z, ok := a.users[id]; !ok || z != r.zone {
 			incons = append(incons, "users["+id+"]")
 		}
